@@ -51,6 +51,14 @@ func (bucket *Bucket) UUID() (string, error) {
 func (bucket *Bucket) Close(_ context.Context) {
 	traceEnter("Bucket.Close", "%s", bucket)
 
+	// Closing a handle twice must not release a second reference to the shared store.
+	bucket.mutex.Lock()
+	alreadyClosed := bucket.closed
+	bucket.mutex.Unlock()
+	if alreadyClosed {
+		return
+	}
+
 	unregisterBucket(bucket)
 	verifPoint("close.unregistered", bucket.name)
 
